@@ -407,6 +407,11 @@ func runSocksServerSeq(rounds int) ([]*socksTrace, error) {
 		auth = "right"
 		pulls = []int{1, len(alice) - 1}
 		one("split-alice", alice, []int{2}, true)
+		// a first segment "05 01" in front of alice's whole session: the stream offers method 5 only and must be refused; if
+		// the first segment were lost after matching, the rest would be alice's valid session
+		pre := append([]byte{5, 1}, alice...)
+		pulls = []int{2, len(pre) - 2}
+		one("split-prefix", pre, []int{5}, false)
 		pulls = nil
 	}
 	return out, nil
